@@ -29,8 +29,9 @@ structure Completed (w : World V) (net : Net V) (a : Nat) (r : CallRec V) (o : O
   answered : (net.cl r.dest).answers.filter (ansKey a r.serial) = [(some a, r.serial, ans)]
   /-- `ans` is the verdict of `handleMethodCallMessage` on this call -/
   fits : AnswerFits w r.dest r ans
-  /-- the completion is `_cbCvtReply` of the reply sent for `ans` -/
-  outcome : o = outcomeOf r.retSig (replyOf w ans)
+  /-- the completion is `_cbCvtReply` of the reply sent for `ans` - unless the call's deadline passed first
+  (then the reply was ignored when it came) -/
+  outcome : o = .timedOut ∨ o = outcomeOf r.retSig (replyOf w ans)
   /-- the exported method ran exactly once, with the call's arguments, iff the call was accepted -/
   invoked : (net.cl r.dest).invocations.filter (invKey a r.serial) =
     match check w r.dest r.path r.iface r.member r.sig with
@@ -64,29 +65,61 @@ theorem Inv.completed {w : World V} {net : Net V} (inv : Inv w net) (hq : net.Qu
   have hinv := inv.inv_cnt a r hr
   simp only [tokens, stages, Stages.total, answersFor, invocationsFor, resultsFor, ua, da, ud, dd, ed, hdrop,
     List.countP_nil, Nat.zero_add, Nat.add_zero] at htok hans hinv
-  rw [htok] at hans
-  -- the completion
-  obtain ⟨x, hx, hxm, hxk⟩ := countP_one_filter _ _ htok
-  obtain ⟨y, hy, hym, hyk⟩ := countP_one_filter _ _ hans
-  obtain ⟨r1, hr1, hs1, _, ans, hansm, ho⟩ := inv.compl_ok a x hxm
+  -- the exporter answered exactly once
+  have hans1 : (net.cl r.dest).answers.countP (ansKey a r.serial) = 1 := by omega
+  -- the caller's Deferred fired exactly once
+  have hK : (net.cl a).completions.countP (complKey r.serial) = 1 := by
+    have hle := inv.compl_le a r.serial
+    have hge : 1 ≤ (net.cl a).completions.countP (complKey r.serial) := by
+      by_cases hl : (net.cl a).late.countP (lateKey r.serial) = 0
+      · have h1 : (net.cl a).completions.countP (complReplyKey r.serial) = 1 := by omega
+        have hmono : (net.cl a).completions.countP (complReplyKey r.serial) ≤
+            (net.cl a).completions.countP (complKey r.serial) := by
+          apply List.countP_mono_left
+          intro x _ hx
+          simp only [complReplyKey, Bool.and_eq_true] at hx
+          exact hx.1
+        omega
+      · have : 0 < (net.cl a).late.countP (lateKey r.serial) := by omega
+        rw [List.countP_pos_iff] at this
+        obtain ⟨x, hx, hk⟩ := this
+        simp only [lateKey, beq_iff_eq] at hk
+        rw [hk] at hx
+        exact inv.late_ok a r.serial hx
+    omega
+  obtain ⟨x, hx, hxm, hxk⟩ := countP_one_filter _ _ hK
+  obtain ⟨y, hy, hym, hyk⟩ := countP_one_filter _ _ hans1
+  obtain ⟨r1, hr1, hs1, hcase⟩ := inv.compl_ok a x hxm
   simp only [complKey, beq_iff_eq] at hxk
   have e1 : r1 = r := inv.serial_uniq a r1 r hr1 hr (by rw [hs1, hxk])
   subst e1
-  -- the answer logged for it is the one the completion came from
-  have hyans : y = (some a, r1.serial, ans) := by
-    have : (some a, x.1, ans) ∈ (net.cl r1.dest).answers.filter (ansKey a r1.serial) := by
-      rw [List.mem_filter]
-      exact ⟨hansm, by simp [ansKey, hxk]⟩
-    rw [hy, List.mem_singleton] at this
-    rw [← this, hxk]
-  subst hyans
-  obtain ⟨a', _, hsa, r2, hr2, hs2, hd2, hfit⟩ := inv.ans_ok r1.dest _ hym
-  simp only at hsa hs2 hfit
-  have ea : a' = a := by injection hsa.symm
+  -- the answer the exporter logged
+  obtain ⟨a', _, hsa, r2, hr2, hs2, hd2, hfit⟩ := inv.ans_ok r1.dest y hym
+  simp only [ansKey, Bool.and_eq_true, beq_iff_eq] at hyk
+  have ea : a' = a := by
+    have := hsa.symm.trans hyk.1
+    injection this
   subst ea
-  have e2 : r2 = r1 := inv.serial_uniq a' r2 r1 hr2 hr hs2
+  have e2 : r2 = r1 := inv.serial_uniq a' r2 r1 hr2 hr (by rw [hs2, hyk.2])
   subst e2
-  refine ⟨x.2, ans, ?_, hy, hfit, ho, ?_⟩
+  have hyeq : y = (some a', r2.serial, y.2.2) := by
+    obtain ⟨y1, y2, y3⟩ := y
+    simp only at hyk hsa
+    rw [hyk.1, hyk.2]
+  -- the completion is the deadline's, or comes from that very answer
+  have ho : x.2 = .timedOut ∨ x.2 = outcomeOf r2.retSig (replyOf w y.2.2) := by
+    rcases hcase with h | ⟨_, _, ans, hansm, ho⟩
+    · exact Or.inl h
+    · right
+      have : (some a', x.1, ans) ∈ (net.cl r2.dest).answers.filter (ansKey a' r2.serial) := by
+        rw [List.mem_filter]
+        exact ⟨hansm, by simp [ansKey, hxk]⟩
+      rw [hy, List.mem_singleton] at this
+      rw [ho, ← this]
+  have hy' : (net.cl r2.dest).answers.filter (ansKey a' r2.serial) = [(some a', r2.serial, y.2.2)] := by
+    rw [hy]; exact congrArg (fun z => [z]) hyeq
+  generalize hans_def : y.2.2 = ans at hfit ho hy'
+  refine ⟨x.2, ans, ?_, hy', hfit, ho, ?_⟩
   · rw [hx]
     have : x = (r2.serial, x.2) := by rw [← hxk]
     rw [← this]
@@ -94,7 +127,7 @@ theorem Inv.completed {w : World V} {net : Net V} (inv : Inv w net) (hq : net.Qu
     have hres : (net.cl r2.dest).answers.countP (ansResKey a' r2.serial) = ans.isResult.toNat := by
       have := countP_and_filter (ansKey a' r2.serial) (fun z => z.2.2.isResult) (net.cl r2.dest).answers
       show (net.cl r2.dest).answers.countP (fun z => ansKey a' r2.serial z && z.2.2.isResult) = _
-      rw [this, hy, countP_cons_toNat, List.countP_nil, Nat.zero_add]
+      rw [this, hy', countP_cons_toNat, List.countP_nil, Nat.zero_add]
     rw [hres] at hinv
     cases hck : check w r2.dest r2.path r2.iface r2.member r2.sig with
     | builtin sg b =>
